@@ -249,7 +249,7 @@ CHECKS = {
         technique="Coq proof (structural induction over the abstract syntax with explicit fuel bounds) over a Gallina model of the parser + model/implementation correspondence"),
     "C05": dict(
         category="other",
-        text="Machine-checked for ALL token lists ending with their only Eof (Props/C05.v, 27 theorems): error recovery "
+        text="Machine-checked for ALL token lists ending with their only Eof (Props/C05.v, 37 theorems): error recovery "
              "resynchronises at every proc/type keyword (C05_sync), the declarations tile the token vector (C05_spans), the parse "
              "of a declaration depends only on the tokens up to the next proc/type/Eof (C05_locality), what follows a declaration "
              "boundary is parsed independently of everything in front of it (C05_suffix_independent: identical subtrees, offsets "
@@ -269,6 +269,11 @@ CHECKS = {
              "itself carries none, and under the hypotheses of C05_containment the diagnostics of the damaged region lie between the "
              "damaged declaration's start and the end of the region (C05_errors_inside_declaration, C05_tree_errors_inside, "
              "C05_errors_contained_located). "
+             "In the property's own terms: for ALL token lists, deleting, inserting or replacing ONE token anywhere inside a declaration "
+             "(next declaration keyword or Eof behind it, no comment directly in front of that keyword in either version) leaves the "
+             "declarations in front identical, the ones behind identical up to the shift, their diagnostics likewise, puts every "
+             "diagnostic of the damaged region inside it and keeps the symbol-table entries (C05_token_deleted, C05_token_inserted, "
+             "C05_token_replaced and the _last variants; validity of the original program is not even needed). "
              "The first formulation of the full statement was too strong "
              "and is refuted (C05_full_statement_refuted: a damage can end a declaration early or turn it into several); "
              "C05_contained_in_one_declaration is the repaired statement. Whether a concrete single-token damage ends at a boundary "
